@@ -347,6 +347,100 @@ pub struct Enums {
     pub o: Option<UnitE>,
 }
 
+// ---- names that need escaping, nullable newtype payloads, Display-driven strings -----------
+#[derive(Serialize, Deserialize, PartialEq, Debug, Clone)]
+pub struct Weird {
+    #[serde(rename = "say \"hi\"")]
+    pub a: u8,
+    #[serde(rename = "C:\\dir")]
+    pub b: String,
+    #[serde(rename = "tab\there")]
+    pub c: bool,
+    #[serde(rename = "nl\nx\u{1}")]
+    pub d: Option<u8>,
+    #[serde(rename = "é\"中")]
+    pub e: i8,
+    #[serde(rename = "")]
+    pub f: u8,
+    #[serde(rename = "a_rather_long_field_name_that_needs_no_escape_at_all")]
+    pub g: u8,
+    #[serde(rename = "a_rather_long_field_name_with_one_quote_near_the\"end")]
+    pub h: u8,
+}
+#[derive(Serialize, Deserialize, PartialEq, Debug, Clone)]
+pub enum WeirdE {
+    #[serde(rename = "v\"1")]
+    S {
+        #[serde(rename = "f\\1")]
+        x: u8,
+        #[serde(rename = "\n")]
+        y: Option<bool>,
+    },
+    #[serde(rename = "new\nline")]
+    N(u8),
+    #[serde(rename = "u\\\"")]
+    U,
+    #[serde(rename = "t\tup")]
+    T(u8, u8),
+}
+#[derive(Serialize, Deserialize, PartialEq, Debug, Clone)]
+pub enum NullNew {
+    Retry(Option<u32>),
+    Unit(()),
+    UnitStruct(UnitS),
+    Nested(Option<Option<u8>>),
+    Plain,
+    Seq(Vec<Option<u8>>),
+}
+/// A string produced piecewise by a `Display` impl (`Serializer::collect_str`), incl. empty pieces.
+#[derive(Debug, Clone)]
+pub struct Disp(pub Vec<String>);
+impl Disp {
+    pub fn text(&self) -> String {
+        self.0.concat()
+    }
+}
+impl std::fmt::Display for Disp {
+    fn fmt(&self, f: &mut std::fmt::Formatter<'_>) -> std::fmt::Result {
+        for c in &self.0 {
+            f.write_str(c)?;
+        }
+        Ok(())
+    }
+}
+impl PartialEq for Disp {
+    fn eq(&self, o: &Self) -> bool {
+        self.text() == o.text()
+    }
+}
+impl Eq for Disp {}
+impl PartialOrd for Disp {
+    fn partial_cmp(&self, o: &Self) -> Option<std::cmp::Ordering> {
+        Some(self.cmp(o))
+    }
+}
+impl Ord for Disp {
+    fn cmp(&self, o: &Self) -> std::cmp::Ordering {
+        self.text().cmp(&o.text())
+    }
+}
+impl Serialize for Disp {
+    fn serialize<S: serde::Serializer>(&self, s: S) -> Result<S::Ok, S::Error> {
+        s.collect_str(self)
+    }
+}
+impl<'de> Deserialize<'de> for Disp {
+    fn deserialize<D: serde::Deserializer<'de>>(d: D) -> Result<Self, D::Error> {
+        String::deserialize(d).map(|s| Disp(vec![s]))
+    }
+}
+#[derive(Serialize, Deserialize, PartialEq, Debug, Clone)]
+pub struct DispS {
+    pub d: Disp,
+    pub v: Vec<Disp>,
+    pub m: BTreeMap<Disp, Disp>,
+}
+
 macro_rules! g_struct {
     ($t:ident { $($f:ident),* }) => {
         impl G for $t {
@@ -443,6 +537,48 @@ impl G for Tree {
     }
 }
 
+g_struct!(Weird { a, b, c, d, e, f, g, h });
+g_struct!(DispS { d, v, m });
+impl G for WeirdE {
+    fn g(src: &mut Src, d: usize) -> Self {
+        match src.below(4) {
+            0 => WeirdE::S { x: G::g(src, d), y: G::g(src, d) },
+            1 => WeirdE::N(G::g(src, d)),
+            2 => WeirdE::U,
+            _ => WeirdE::T(G::g(src, d), G::g(src, d)),
+        }
+    }
+}
+impl G for NullNew {
+    fn g(src: &mut Src, d: usize) -> Self {
+        match src.below(6) {
+            0 => NullNew::Retry(G::g(src, d)),
+            1 => NullNew::Unit(()),
+            2 => NullNew::UnitStruct(UnitS),
+            3 => NullNew::Nested(if src.bool() { None } else { Some(Some(G::g(src, d))) }), // Some(None) is not representable in JSON
+            4 => NullNew::Plain,
+            _ => NullNew::Seq(G::g(src, d + 1)),
+        }
+    }
+}
+impl G for Disp {
+    fn g(src: &mut Src, d: usize) -> Self {
+        let n = src.below(5);
+        Disp(
+            (0..n)
+                .map(|_| match src.below(8) {
+                    0 | 1 => String::new(),
+                    2 => "a".to_string(),
+                    3 => "\"".to_string(),
+                    4 => "\\\n".to_string(),
+                    5 => "x".repeat(*src.pick(&[31usize, 32, 33, 64, 100])),
+                    _ => G::g(src, d),
+                })
+                .collect(),
+        )
+    }
+}
+
 macro_rules! family {
     ($( $idx:literal => $t:ty : $name:literal $(, f32=$f32:literal)? $(, bytes=$bytes:literal)? ;)*) => {
         $( impl Fam for $t { const NAME: &'static str = $name; $(const HAS_F32: bool = $f32;)? $(const BYTES_AT: u8 = $bytes;)? } )*
@@ -524,4 +660,12 @@ family! {
     60 => Vec<serde_bytes::ByteBuf> : "Vec<ByteBuf>", bytes=2;
     61 => BTreeMap<String, serde_bytes::ByteBuf> : "BTreeMap<String,ByteBuf>", bytes=2;
     62 => (serde_bytes::ByteBuf, String, serde_bytes::ByteBuf) : "(ByteBuf,String,ByteBuf)", bytes=3;
+    63 => Weird : "Weird";
+    64 => WeirdE : "WeirdE";
+    65 => Vec<WeirdE> : "Vec<WeirdE>";
+    66 => NullNew : "NullNew";
+    67 => Vec<NullNew> : "Vec<NullNew>";
+    68 => Disp : "Disp";
+    69 => DispS : "DispS";
+    70 => BTreeMap<String, NullNew> : "BTreeMap<String,NullNew>";
 }
